@@ -206,7 +206,7 @@ class CFG:
             "phase": "setup",
             "handler_entries": [],
             "finally_entry": None,
-            "body_nodes": [entry.idx],
+            "body_nodes": [],
             "catch_all": any(
                 h.type is None or (isinstance(h.type, ast.Name) and h.type.id == "BaseException") for h in st.handlers
             ),
